@@ -188,13 +188,21 @@ class SimpleRunner(ReaderRunner):
     """Cases that are not reader histories (writers, iterators, policies, ...): raw oracle, no shrinking
     beyond what the generator's small cases give."""
 
-    def __init__(self, quick, thorough, raw_oracle, exact=True):
+    def __init__(self, quick, thorough, raw_oracle, exact=True, exact_kinds=None):
         self.fams = {'quick': quick, 'thorough': thorough}
         self.oracle = None
         self.raw_oracle = raw_oracle
         self.keep_growth = True
         self.search_fams = thorough
         self.exact = exact
+        self.exact_kinds = exact_kinds
+
+    def run(self, res, tier, seed, corpus):
+        engine.EXACT_KINDS = self.exact_kinds
+        try:
+            ReaderRunner.run(self, res, tier, seed, corpus)
+        finally:
+            engine.EXACT_KINDS = None
 
     def minimise(self, case, msg, obs):
         return case, msg, obs
@@ -520,10 +528,13 @@ PROPS['C19'] = dict(
 )
 PROPS['C20'] = dict(
     theorems=[],
-    runner=SimpleRunner(quick=[('iter', 7)], thorough=[('iter', 11)], raw_oracle=oracles.iter_oracle),
+    runner=SimpleRunner(quick=[('iter', 7), ('fa_zero', 1500), ('fq_zero', 1500)], thorough=[('iter', 11), ('fa_zero', 40000), ('fq_zero', 40000)],
+                        raw_oracle=lambda c, o, s: oracles.fused_oracle(c, o, s) if c.startswith('F ') else oracles.iter_oracle(c, o, s),
+                        exact_kinds=('I',)),
     rule='records with 0-5 sequence lines x every word over {front, back} up to length 7 (thorough: 11) on one seq_lines() iterator, '
          'len() and size_hint() after every step; enumerate().rev() (also after advancing), rev, zip, skip, collect; record-set '
-         'iterators and owned-record iterators of both formats driven past their end',
+         'iterators and owned-record iterators of both formats driven past their end; owned/next iteration over sources that report '
+         'Ok(0) and deliver data later (fusedness; no model involved)',
     assumptions=[],
 )
 
@@ -554,3 +565,17 @@ RECORD_FIELDS = {
     'C06': set('hlsq'), 'C09': set('h'), 'C11': set('hulsq'), 'C12': set('hlsqn'), 'C14': set('hlsq'),
     'C17': set('h'), 'C18': set('h'),
 }
+
+
+# C11: FASTQ writer cases (W) go to the writer oracle, reader cases (R) to the unchanged-writing oracle
+_c11 = PROPS['C11']['runner']
+_c11_reader = _c11.raw_oracle
+
+
+def _c11_oracle(c, o, s):
+    if c.startswith('W '):
+        return oracles.writer_oracle(c, o, s)
+    return _c11_reader(c, o, s)
+
+
+_c11.raw_oracle = _c11_oracle
